@@ -39,7 +39,14 @@ LinePool == <<
   S("@description: [i7]; a"),
   S("@name: ") \o Q1 \o S("n2") \o Q1 \o S("; @k: i1; c"),
   S("@name: ") \o Q1 \o S("  padded name ") \o <<9>> \o Q1 \o S(";"),
-  S("b == ") \o Q1 \o S("x") \o <<13>> \o S("y") \o <<13, 10>> \o S("z") \o Q1 >>
+  S("b == ") \o Q1 \o S("x") \o <<13>> \o S("y") \o <<13, 10>> \o S("z") \o Q1,
+  \* quotes and backslashes that a line-based scanner could miscount: a string constant ending in an escaped
+  \* backslash, a comment holding a lone quote, an expression whose string is one backslash
+  S("@p: ") \o Q1 \o S("C:") \o <<92, 92>> \o S("rules") \o <<92, 92>> \o Q1 \o S(";"),
+  S("// say ") \o Q1 \o S("hi"),
+  S("c == ") \o Q1 \o <<92, 92>> \o Q1,
+  \* a string constant spanning lines, one of which looks like a comment line (the line-based comment scan sees it)
+  S("b == ") \o Q1 \o S("x") \o <<10>> \o S("// inside") \o <<10>> \o S("y") \o Q1 >>
 
 Term == IF style = 2 THEN <<13, 10>> ELSE <<10>>
 RECURSIVE Assemble(_)
@@ -52,9 +59,10 @@ Next == /\ Len(ls) < N /\ \E i \in 1..Len(LinePool) : ls' = Append(ls, i)
         /\ style' = style
 
 \* ---- the property restated on the result, independently of FoldMeta / RuleFromToks ---------
-IsC(i) == ls[i] \in {1, 2, 3, 4, 18}                       \* the comment lines of the pool
+IsC(i) == ls[i] \in {1, 2, 3, 4, 18, 26, 28}                       \* the comment lines of the pool
 CTextOf(i) == CASE ls[i] = 1 -> S("name one") [] ls[i] = 2 -> S("indented") [] ls[i] = 3 -> <<>>
                 [] ls[i] = 4 -> S("second line") [] ls[i] = 18 -> S("nbsp indented")
+                [] ls[i] = 26 -> S("say ") \o Q1 \o S("hi") [] ls[i] = 28 -> S("inside")
 Comments == LET idx == SelectSeq([i \in 1..Len(ls) |-> i], IsC) IN [j \in 1..Len(idx) |-> CTextOf(idx[j])]
 
 ExtractedP(text, toks, res) ==
